@@ -1,4 +1,4 @@
-CONSTANTS MaxEx = 3  SeqSample = 250  BugTrailerCRLF = FALSE  BugUncompressed = FALSE
+CONSTANTS MaxEx = 3  SeqSample = 250  BugTrailerCRLF = FALSE  BugUncompressed = FALSE  ChunkedTo10 = FALSE
 INIT GInit
 NEXT GNext
 CONSTRAINT Emit
